@@ -6,7 +6,7 @@ Model of the *occupancy* side of mesa's cell spaces (properties C06, C18-cells; 
 `remove_agent`, `is_empty`, `is_full`, `agents`), `discrete_space.py` (`empties`, `agents`,
 `select_random_empty_cell`), `grid.py` (`Grid.select_random_empty_cell`, the `empty` property
 layer), `cell_collection.py` (`select_random_cell`).  The model follows the code after the
-repairs S11 (`HasCell.cell`), S12 (`FixedCell.cell`), S13 (`Grid2DMovingAgent.move`).
+repairs S11 (`HasCell.cell`), S12 (`FixedCell.cell`), S13 (`Grid2DMovingAgent.move`), SC3 (`Cell.add_agent`: capacity 0).
 
 ## State (explicit, for C19)
 
@@ -124,11 +124,12 @@ def init (sp : Space) : State :=
   { occ := fun _ => [], flag := fun _ => if sp.isGrid then some true else none,
     cellOf := fun _ => none, kinds := [], registry := [], tryRandom := true }
 
-/-- the test of `Cell.add_agent`: `self.capacity and n >= self.capacity` -/
+/-- the test of `Cell.add_agent` (repair SC3): `self.capacity is not None and n >= self.capacity` — a capacity of 0
+    (the area-based default of a tiny Voronoi cell) is a capacity: such a cell takes nobody -/
 def fullFor (sp : Space) (s : State) (c : Cid) : Bool :=
   match sp.cap c with
   | none => false
-  | some k => k != 0 && decide ((s.occ c).length ≥ k)
+  | some k => decide ((s.occ c).length ≥ k)
 
 /-- `Cell.is_empty` -/
 def isEmpty (s : State) (c : Cid) : Bool := (s.occ c).isEmpty
@@ -139,12 +140,11 @@ def isFull (sp : Space) (s : State) (c : Cid) : Bool :=
   | none => false
   | some k => (s.occ c).length == k
 
-/-- `Cell.add_agent`: writes `empty = False`, *then* checks the capacity, then appends.
+/-- `Cell.add_agent` (repair SC3): checks the capacity, then appends and writes `empty = False`.
     Returns the state after the call and whether it raised. -/
 def addAgent (sp : Space) (s : State) (c : Cid) (a : Aid) : State × Bool :=
-  let s1 := { s with flag := upd s.flag c (some false) }
-  if fullFor sp s c then (s1, false)
-  else ({ s1 with occ := upd s1.occ c (s.occ c ++ [a]) }, true)
+  if fullFor sp s c then (s, false)
+  else ({ s with flag := upd s.flag c (some false), occ := upd s.occ c (s.occ c ++ [a]) }, true)
 
 /-- `Cell.remove_agent`: `self._agents.remove(agent)` (ValueError if absent);
     `self.empty = self.is_empty` -/
@@ -312,6 +312,17 @@ def step (sp : Space) (s : State) : Op → State × Res
 def run (sp : Space) (s : State) : List Op → State
   | [] => s
   | op :: ops => run sp (step sp s op).1 ops
+
+/-- `for a in cell.agents: a.remove()` — emptying a cell by iterating over the *copy* `cell.agents` hands out (the loop
+    stops at the first `remove()` that raises): the removals are those of the agents listed when the loop started, in order -/
+def removeEach (sp : Space) : State → List Aid → State × Res
+  | s, [] => (s, .ok)
+  | s, a :: as =>
+    match step sp s (.remove a) with
+    | (s', .ok) => removeEach sp s' as
+    | (s', r) => (s', r)
+
+def clearCell (sp : Space) (s : State) (c : Cid) : State × Res := removeEach sp s (s.occ c)
 
 /-! ### histories that also edit connections (`Cell.connect` / `Cell.disconnect` after construction) -/
 
